@@ -1514,9 +1514,13 @@ namespace gch
         : has_alloc_construct_check<void, A, V, Args...>
       { };
 
+      // Note: Before C++20 `std::allocator<V>::construct` is an unconstrained template, so it would
+      //       appear to accept any arguments (making eg. a move-only type look copy-insertable).
+      //       It is equivalent to placement new, which we can check properly, so we never use it.
       template <typename A, typename V, typename ...Args>
       struct has_alloc_construct
-        : has_alloc_construct_impl<void, A, V, Args...>
+        : bool_constant<! std::is_same<A, std::allocator<V>>::value
+                      &&  has_alloc_construct_impl<void, A, V, Args...>::value>
       { };
 
       template <typename A, typename V, typename ...Args>
